@@ -37,7 +37,10 @@ _C02_REQ = ["epochs", "epochs_in_leak", "epochs_finalizing", "epochs_justifying"
             "ejections_exceed_churn_phase0", "ejections_exceed_churn_altair", "ejections_exceed_churn_bellatrix",
             "ejections_exceed_churn_capella", "ejections_exceed_churn_deneb",
             # interaction classes steered by the TLC-generated scenario scripts (spec/BeaconScenario.tla)
-            "tlc_behaviours", "leak_across_fork_boundary", "correlated_slashing_penalties", "topup_crossed_hysteresis"]
+            "tlc_behaviours", "leak_across_fork_boundary", "correlated_slashing_penalties", "topup_crossed_hysteresis",
+            # shortcut guards that are true while the work is not a no-op
+            "penalties_without_any_previous_epoch_attestation", "eligibility_marked_without_activation_or_ejection",
+            "effective_balance_change_with_unchanged_balance"]
 _C01_REQ = ["blocks_phase0", "blocks_altair", "blocks_bellatrix", "blocks_capella", "blocks_deneb",
             "ops_pslash", "ops_aslash", "ops_atts", "ops_deposits", "ops_exits", "ops_bls_changes",
             "ops_atts_phase0", "ops_atts_altair", "ops_atts_deneb", "ops_exits_deneb", "ops_pslash_phase0",
@@ -60,6 +63,16 @@ _C01_REQ = ["blocks_phase0", "blocks_altair", "blocks_bellatrix", "blocks_capell
             # attester slashings whose intersection mixes slashable and non-slashable validators (valid: skipped)
             "attester_slashing_with_unslashable_member", "attester_slashing_includes_already_slashed",
             "attester_slashing_includes_not_yet_active", "attester_slashing_includes_withdrawable",
+            # several aggregates of one committee with overlapping attester sets (altair+: flags / proposer reward per
+            # NEW flag only; an implementation must not stop at the first attester that has nothing new)
+            "atts_partial_overlap_flagged_before_new_altair", "atts_partial_overlap_flagged_before_new_bellatrix",
+            "atts_partial_overlap_flagged_before_new_capella", "atts_partial_overlap_flagged_before_new_deneb",
+            "atts_partial_overlap_flagged_before_new_phase0", "atts_strict_superset_of_included_altair",
+            "atts_strict_superset_of_included_deneb", "atts_all_attesters_already_included_altair",
+            "atts_all_attesters_already_included_deneb",
+            # withdrawals sweep bound larger than the registry (cursor advances by the preset value modulo the size)
+            "sweep_bound_exceeds_registry_size_list_not_full", "sweep_bound_exceeds_registry_size_list_full",
+            "sweep_bound_exceeds_registry_size_cursor_wraps_unevenly",
             # deposit signature-byte shapes x {new pubkey, top-up} in blocks
             "dep_block_topup_valid", "dep_block_topup_wrong", "dep_block_topup_zero", "dep_block_topup_ff",
             "dep_block_topup_undecodable", "dep_block_topup_infinity", "dep_block_new_valid", "dep_block_new_wrong",
